@@ -174,6 +174,12 @@ def check_C16(c):
             n = c.rng.randint(1, 4)
             tr = [[c.rng.choice(vs), c.rng.choice(own), c.rng.choice(vs + ['x', None])] for _ in range(n)]
             jobs.append(('tr_errors', dict(tr=tr, xtop=c.rng.choice([None, 'a']), model='custom', mdl=mdl)))
+    # (2c) variables spelled like numerals (legal: a variable is any symbol) in place of a, b, c
+    nvs = ['1', '10', '007', '1e5', '-0.0', 'a']
+    for _ in range(_q(c, 400, 8000)):
+        n = c.rng.randint(2, 6)
+        tr = [[c.rng.choice(nvs), c.rng.choice(roles), c.rng.choice(nvs + ['x', None])] for _ in range(n)]
+        jobs.append(('tr_errors', dict(tr=tr, xtop=c.rng.choice([None, '1', '10', 'a']), model=c.rng.choice(['default', 'amr', 'miniamr']))))
     # (2b) graphs with more nodes than the call is given stack frames: a chain and a comb of 400 nodes, connected and with a loose end
     for n, shape in ((400, 'chain'), (400, 'comb'), (300, 'chain-broken')):
         big = []
